@@ -154,7 +154,7 @@ Lemma step_p_primary K ts :
         let* (_u, r3) := expect ORParen r2 in ROk e r3
     | KOp OLBracket :: r => let* (es, r2) := p_items K ORBracket [] r in ROk (EList es) r2
     | KOp OLBrace :: r => let* (kvs, r2) := p_pairs K [] r in ROk (EDict kvs) r2
-    | _ => RErr
+    | _ => RErr ts
     end.
 Proof. reflexivity. Qed.
 
@@ -225,7 +225,7 @@ Lemma step_p_subscript K node ts :
     match ts with
     | KOp ODot :: KName s :: r => ROk (EGetattr node s) r
     | KOp ODot :: KInt z :: r => ROk (EGetitem node (EConst (VInt z))) r
-    | KOp ODot :: _ => RErr
+    | KOp ODot :: _ => RErr (tl ts)
     | KOp OLBracket :: r =>
         let* (args, r2) := p_subs K [] r in
         match args with
@@ -242,7 +242,7 @@ Lemma step_p_subscript K node ts :
             | None => RUnsup
             end
         end
-    | _ => RErr
+    | _ => RErr ts
     end.
 Proof. reflexivity. Qed.
 
@@ -280,11 +280,11 @@ Proof. reflexivity. Qed.
 
 Lemma step_p_call_args K ts :
   p_call_args (kit_step K) ts =
-    let* (_u, r) := expect OLParen ts in p_args_loop K [] [] false r.
+    let* (_u, r) := expect OLParen ts in p_args_loop K ts [] [] false r.
 Proof. reflexivity. Qed.
 
-Lemma step_p_args_loop K args kw require_comma ts :
-  p_args_loop (kit_step K) args kw require_comma ts =
+Lemma step_p_args_loop K lp args kw require_comma ts :
+  p_args_loop (kit_step K) lp args kw require_comma ts =
     if is_op ORParen ts then ROk (args, kw) (tl ts)
     else
       let* (_u, r) := (if require_comma then expect OComma ts else ROk tt ts) in
@@ -293,11 +293,11 @@ Lemma step_p_args_loop K args kw require_comma ts :
       else
         match r with
         | KName key :: KOp OAssign :: r2 =>
-            let* (v, r3) := p_cond K r2 in p_args_loop K args (kw ++ [(key, v)]) true r3
+            let* (v, r3) := p_cond K r2 in p_args_loop K lp args (kw ++ [(key, v)]) true r3
         | _ =>
             match kw with
-            | [] => let* (v, r3) := p_cond K r in p_args_loop K (args ++ [v]) kw true r3
-            | _ => RErr
+            | [] => let* (v, r3) := p_cond K r in p_args_loop K lp (args ++ [v]) kw true r3
+            | _ => RErr lp
             end
         end.
 Proof. reflexivity. Qed.
@@ -306,7 +306,7 @@ Lemma step_p_dotted K name ts :
   p_dotted (kit_step K) name ts =
     match ts with
     | KOp ODot :: KName s :: r => p_dotted K (name ++ [46%N] ++ s) r
-    | KOp ODot :: _ => RErr
+    | KOp ODot :: _ => RErr (tl ts)
     | _ => ROk name ts
     end.
 Proof. reflexivity. Qed.
@@ -320,7 +320,7 @@ Lemma step_p_filter K node ts :
           let* (ak, r3) := p_call_args K r2 in
           match snd ak with [] => ROk (EFilter node name (fst ak)) r3 | _ => RUnsup end
         else ROk (EFilter node name []) r2
-    | _ => RErr
+    | _ => RErr (tl ts)
     end.
 Proof. reflexivity. Qed.
 
@@ -344,13 +344,13 @@ Lemma step_p_test K node ts :
                | _ => false
                end in
              if starts_arg then
-               if is_kw k_is r2 then RErr
+               if is_kw k_is r2 then RErr r2
                else
                  let* (a, r3) := p_primary K r2 in
                  let* (a2, r4) := p_postfix K a r3 in ROk [a2] r4
              else ROk [] r2) in
         let t := ETest node name args in
         ROk (if negated then ENot t else t) r3
-    | _ => RErr
+    | _ => RErr ts1
     end.
 Proof. reflexivity. Qed.
